@@ -388,7 +388,9 @@ fn run_and_enumerate(
         _ => false,
       };
       sh.cuts.fetch_add(1, Ordering::Relaxed);
-      let (images, capped) = fsm.images(sh.policy, sh.nonprefix, sh.image_cap, "MANIFEST.json", &["wal.log"], &|m: &[u8]| manifest_refs(root, m));
+      // the first crash of a chain uses the tier's tear policy; later crashes use the 3-point policy
+      let pol = if base.is_none() { sh.policy } else { TearPolicy::Quick };
+      let (images, capped) = fsm.images(pol, sh.nonprefix, sh.image_cap, "MANIFEST.json", &["wal.log"], &|m: &[u8]| manifest_refs(root, m));
       if capped {
         sh.capped.store(true, Ordering::Relaxed);
       }
@@ -514,7 +516,7 @@ pub fn run_c02(ctx: &Ctx) -> i32 {
     deadline_s: if quick { 40.0 } else { 2400.0 },
     start: std::time::Instant::now(),
     timed_out: std::sync::atomic::AtomicBool::new(false),
-    nested_len: if quick { 3 } else { 4 },
+    nested_len: 3,
     sample: Mutex::new(Vec::new()),
   };
   let nesting = if quick { 2 } else { 3 }; // number of crashes in a row
@@ -546,7 +548,7 @@ pub fn run_c02(ctx: &Ctx) -> i32 {
     println!("VIOLATION property=C02 replay={path}\n  what: {}", v[0].0);
     return 1;
   }
-  let max_depth = if quick { 2 } else { 4 };
+  let max_depth = if quick { 2 } else { 3 };
   let cfg = Config { mem: false, positions: true, handles: 1, compactable: true, max_depth, max_segments: 3, max_queue: 2 };
   let alpha: Vec<Op> = {
     let mut a = vec![Op::New(0)];
@@ -673,7 +675,7 @@ pub fn run_c02(ctx: &Ctx) -> i32 {
     "distinct_nontrivial" => sh.nontrivial.load(Ordering::Relaxed),
     "rule" => "level 0: BFS over writer histories (as C01), crash at every syscall boundary of the last op, every durable image of model M; each recovered image (deduplicated on image bytes + model state + remaining depth) becomes the start of every maximal post-recovery script over {new, add(B2), del(A), drop(sync), commit, rollback}, itself crashed at every syscall boundary of every op, recursively. Oracle per crash: reopen works; contents are the pre or in-flight-commit post state; the recovered queue (Wal::last_pending_ops) is a prefix of the queued operations containing every operation followed by a successful log sync; a new writer + commit yields exactly committed (+) recovered queue. An image is non-trivial when it differs from the no-crash directory.",
     "depth_completed" => depth_done,
-    "tear_policy" => format!("{:?}", sh.policy),
+    "tear_policy" => format!("first crash: {:?}; later crashes: Quick (tears at 1, mid, len-1)", sh.policy),
     "cap_hit" => if timed_out { Some(format!("wall budget {}s", sh.deadline_s)) } else { None },
     "image_cap_per_cut_hit" => sh.capped.load(Ordering::Relaxed),
     "exhaustive" => !timed_out && !sh.capped.load(Ordering::Relaxed),
